@@ -518,7 +518,7 @@ DT_REGEX = re.compile(
             )?
         )?
     )?
-    $
+    \Z
     """,
     re.VERBOSE,
 )
@@ -680,7 +680,7 @@ TIME_REGEX = re.compile(
             \]
         )?
     )?
-    $
+    \Z
     """,
     re.VERBOSE,
 )
